@@ -17,10 +17,16 @@ RULE = ("templates from the C01/C02 generators with functions in rare positions 
         "field of every pydantic object, extra fields, dict/list members) for FunctionDict instances and single-key function dicts; (b) "
         "m.resolve(p) == m.resolve(p).resolve(p). The model predicts 'no function left' when the theorem's hypotheses hold on the input "
         "(evaluated by the runner) and 'fixed point' when its own output is function-free and rendered; other inputs are counted as undefined. "
+        "The fixed-point surface also compares the dump of m.resolve(p).resolve(p) with the MODEL's second round (resolve_model applied to "
+        "its own output, op 110), re-validated like the first round. "
         "non-trivial = >= 2 function objects in the template; distinct by input hash.")
 ASSUMPTIONS = [
-    "second resolution is compared at template level (CFModel) while C03_fixed_point is stated on expressions: the template-level driver "
-    "(parameters, conditions already boolean, gating) is covered by the correspondence",
+    "second resolution at template level: C03_model_fixed_point (conditions already boolean, gates of kept resources, Type put back) is "
+    "proved for resolve_model applied to its own output; the implementation's second round starts from the RE-VALIDATED dump of the "
+    "first (pydantic casting in between), which stays with the correspondence: the dump of m.resolve(p).resolve(p) is compared with the "
+    "model's second round (op 110) re-validated the same way",
+    "inputs outside C03_model_fixed_point's input hypothesis resource_wf (a function object in the place of a whole resource; a resource "
+    "gated by a condition whose NAME rendering rewrites, e.g. conditions called True and true) are counted as undefined",
     "outputs that are not in rendered form (text assembled by Fn::Join/Fn::Sub/Fn::Select/Fn::FindInMap that a second pass normalises again) are "
     "outside C03_fixed_point's hypothesis: known finding F20 (and F14b for raw mapping leaves); exercised by a deliberate stream",
 ]
@@ -101,7 +107,7 @@ class Concrete(core.Surface):
 
 class FixedPoint(core.Surface):
     name = "m.resolve(p) == m.resolve(p).resolve(p)"
-    theorem = "C03_fixed_point / C03_resolve_twice"
+    theorem = "C03_fixed_point / C03_resolve_twice / C03_model_fixed_point"
 
     def impl(self, x):
         import pycfmodel
@@ -109,7 +115,9 @@ class FixedPoint(core.Surface):
         def run():
             r1 = pycfmodel.parse(copy.deepcopy(x["template"])).resolve(copy.deepcopy(x["extra"]))
             r2 = r1.resolve(copy.deepcopy(x["extra"]))
-            return {"equal": r1 == r2 and r1.model_dump() == r2.model_dump()}
+            d2 = r2.model_dump()
+            return {"equal": r1 == r2 and r1.model_dump() == d2,
+                    "second": {"Conditions": resgen.to_wire(d2["Conditions"]), "Resources": resgen.to_wire(d2["Resources"])}}
         return core.impl_call(run)
 
     def model(self, rn, x):
@@ -118,15 +126,36 @@ class FixedPoint(core.Surface):
             m = pycfmodel.parse(copy.deepcopy(x["template"]))
         except Exception:
             return ("EXC", "EUndefined", "")
+        from pycfmodel.model.cf_model import CFModel
         args = tplgen.model_args(m, x["extra"])
-        r = core.model_res(rn.call(102, args))
+        # op 110 = resolve_model, then resolve_model on its own output (Conditions now booleans, kept resources with their
+        # Condition attribute), + the boolean hypotheses of C03_model_fixed_point on the first output and on the input
+        first, second, hyp_out, hyp_in = rn.call(110, args)
+        r = core.model_res(first)
         ps = core.model_res(rn.call(104, args[:3]))
         if r[0] != "OK" or ps[0] != "OK":
             return ("EXC", "EUndefined", "")
         nofn, rend = rn.call(107, [ps[1], r[1]["Resources"]])
-        if not (nofn and rend):
+        if not (nofn and rend and hyp_out):
             return ("EXC", "EUndefined", "")        # unrendered output: F20 / F14b stream
-        return ("OK", {"equal": True})
+        if not hyp_in:
+            # a function object in the place of a whole resource, or a gating condition NAME that rendering rewrites
+            # (conditions called True / FALSE): C03_model_fixed_point_needs_wf
+            return ("EXC", "EUndefined", "")
+        r2 = core.model_res(second)
+        if r2 != r:
+            raise core.ModelError(f"op 110 contradicts C03_model_fixed_point: {r!r} then {r2!r}")
+        out = tplgen.from_wire(r2[1])
+
+        def reval():
+            # the same re-validation CFModel(**plain) both sides end with (see tplgen.E2ESurface)
+            dv = m.model_dump()
+            dv.pop("Conditions", None)
+            dv.pop("Resources", None)
+            d = CFModel(**dv, Conditions=out["Conditions"], Resources=out["Resources"]).model_dump()
+            return {"equal": True,
+                    "second": {"Conditions": resgen.to_wire(d["Conditions"]), "Resources": resgen.to_wire(d["Resources"])}}
+        return core.impl_call(reval)
 
     def agree(self, x, i, m):
         if i[0] == "EXC":
@@ -193,9 +222,11 @@ F14B_WITNESS = {"template": {"Mappings": {"M": {"a": {"b": "True"}}}, "Resources
 
 def reproduce_known(f):
     if f["id"] == "F20":
-        return FIXED.impl(F20_WITNESS) == ("OK", {"equal": False})
+        i = FIXED.impl(F20_WITNESS)
+        return i[0] == "OK" and i[1]["equal"] is False
     if f["id"] == "F14b":
-        return FIXED.impl(F14B_WITNESS) == ("OK", {"equal": False})
+        i = FIXED.impl(F14B_WITNESS)
+        return i[0] == "OK" and i[1]["equal"] is False
     if f["id"] == "F18":
         i = CONCRETE.impl(F18_WITNESS)
         return i[0] == "OK" and i[1]["functions_left"]
